@@ -14,7 +14,7 @@ func init() {
 		explanation: "Stack-discipline argument for the parsing-context stack, decided on every path of the current source (SSA, defer/rundefers): " +
 			"R16.1 only the constructor, PushContext and PopContext store the stack field and no other code can alias or write its elements; " +
 			"R16.2 push appends exactly its argument, pop removes exactly the last element; " +
-			"R16.3 every function of package parser that pushes or pops returns, on every path, with as many pops (executed or deferred) as pushes, so every parse function returns with the stack it was entered with and ParseProgram returns with the constructor's one-element [Global] stack for valid and malformed input alike; " +
+			"R16.3 every function of package parser that pushes or pops returns, on every path, with as many pops (executed or deferred) as pushes, so every parse function returns with the stack it was entered with and ParseProgram returns with the constructor's one-element [Global] stack for valid and malformed input alike; behind an executed (not deferred) pop no parse through the interceptor chain is reachable in the same function, so the body is never parsed with its context already removed; " +
 			"R16.4 the function context is pushed by exactly the two function-body parsers, after '{' was checked and before the body is parsed (name and parameters before the push), the block context by the block parser before any statement is parsed, and nothing else pushes; " +
 			"R16.5 CurrentContext returns the last element and IsInFunction inspects the whole stack. " +
 			"A pass means every enumerated obligation was discharged; it does NOT show the behavioural property (equality of the answers with the syntactic nesting at every interceptor invocation) — that identification leans on where the parse methods are called, and plugins that push/pop themselves are outside the analysed program.",
@@ -399,6 +399,83 @@ func balanceFn(c *Ctx, a *c16anchors, f *ssa.Function) {
 			}
 		}
 	}
+	// an executed (not deferred) pop ends the construct: nothing that can run an interceptor — a parse through the
+	// statement / expression chain, directly or in a callee — may be reachable behind it in this function, otherwise
+	// that code is parsed with the context already gone although the counts balance
+	t := c.tables()
+	var runsChain func(g *ssa.Function, depth int) bool
+	chainMemo := map[*ssa.Function]int{}
+	runsChain = func(g *ssa.Function, depth int) bool {
+		if g == nil || g.Blocks == nil || depth > 3 || g.Pkg != f.Pkg {
+			return false
+		}
+		if v := chainMemo[g]; v != 0 {
+			return v == 1
+		}
+		chainMemo[g] = 2
+		found := false
+		allInstrs(g, func(_ *ssa.BasicBlock, _ int, in ssa.Instruction) {
+			call, ok := in.(*ssa.Call)
+			if !ok || found {
+				return
+			}
+			if call.Call.StaticCallee() == nil && !call.Call.IsInvoke() {
+				if _, ok := isFieldLoad(call.Call.Value, t.pt.stmtFld); ok {
+					found = true
+				}
+				if _, ok := isFieldLoad(call.Call.Value, t.pt.exprFld); ok {
+					found = true
+				}
+				return
+			}
+			if runsChain(call.Call.StaticCallee(), depth+1) {
+				found = true
+			}
+		})
+		if found {
+			chainMemo[g] = 1
+		}
+		return found
+	}
+	allInstrs(f, func(b *ssa.BasicBlock, i int, ins ssa.Instruction) {
+		pc, ok := ins.(*ssa.Call)
+		if !ok || staticCallee(pc) != a.pop {
+			return
+		}
+		var hit *ssa.Call
+		seen := map[*ssa.BasicBlock]bool{}
+		var walk func(blk *ssa.BasicBlock, from int)
+		walk = func(blk *ssa.BasicBlock, from int) {
+			for _, nx := range blk.Instrs[from:] {
+				call, ok := nx.(*ssa.Call)
+				if !ok || hit != nil {
+					continue
+				}
+				direct := false
+				if call.Call.StaticCallee() == nil && !call.Call.IsInvoke() {
+					_, s1 := isFieldLoad(call.Call.Value, t.pt.stmtFld)
+					_, s2 := isFieldLoad(call.Call.Value, t.pt.exprFld)
+					direct = s1 || s2
+				}
+				if direct || runsChain(call.Call.StaticCallee(), 0) {
+					hit = call
+				}
+			}
+			for _, sc := range blk.Succs {
+				if !seen[sc] && hit == nil {
+					seen[sc] = true
+					walk(sc, 0)
+				}
+			}
+		}
+		walk(b, i+1)
+		key := fmt.Sprintf("%s: nothing is parsed behind the pop at block %d", fnName(f), b.Index)
+		if hit != nil {
+			c.bad(key, pc.Pos(), "behind this executed pop the function still parses through the interceptor chain (%s): that part of the construct is parsed with its context already removed — pushes and pops balance, but interceptors inside it see the enclosing context", c.pos(hit.Pos()))
+		} else {
+			c.ok(key, pc.Pos(), "no parse through the chain is reachable behind it")
+		}
+	})
 	// a deferred pop should be registered right after its push (panic safety): informational
 	allInstrs(f, func(b *ssa.BasicBlock, i int, ins ssa.Instruction) {
 		call, ok := ins.(*ssa.Call)
